@@ -715,7 +715,7 @@ def gen_sessions(ctx):
     """TLC simulates sessions; one line per session (with every successor of the last but one state: a few per trace
     are kept)"""
     res = ctx.tlc('Gen_ParserSession', 'Gen_ParserSession.cfg', leg='GEN', workers=2, simulate='num=%d' % ctx.pick(20, 250),
-                  depth=8, seed=ctx.seed, timeout=ctx.pick(300, 1500), jvm=JVM)
+                  depth=8, seed=ctx.seed, timeout=ctx.pick(600, 3000), jvm=JVM)
     if res.violated:
         raise core.MachineryError('generator Gen_ParserSession.cfg: %s' % res.violated)
     rng = random.Random(ctx.seed + 7)
